@@ -1166,6 +1166,16 @@ func (p Patch) copy(doc *container, op Operation, accumulatedCopySize *int64, op
 		return fmt.Errorf("error in copy for from: '%s': %w", from, err)
 	}
 
+	if from == "" {
+		// The whole document as it is now, not the text it was parsed from.
+		switch sv := (*doc).(type) {
+		case *partialDoc:
+			val = &lazyNode{doc: sv, which: eDoc}
+		case *partialArray:
+			val = &lazyNode{ary: sv, which: eAry}
+		}
+	}
+
 	path, err := op.Path()
 	if err != nil {
 		return fmt.Errorf("copy operation failed to decode path: %w", ErrMissing)
